@@ -1396,3 +1396,234 @@ Proof.
 Qed.
 
 End C07.
+
+Section C07b.
+Variable mac : N -> N -> N -> N -> N -> list N.
+Notation macq := (total mac).
+Variable c : cfg.
+Variable now : N.
+Variable ing : ingress.
+
+Lemma same_static_inc p q : same_static p q -> same_static p (inc_path q).
+Proof. intros [? ? ? ? ? ? ? ? ? ? ? ? ? ?]. constructor; cbn; auto. Qed.
+
+Lemma same_static_infos p q l : same_static p q -> same_static p (with_infos q l).
+Proof. intros [? ? ? ? ? ? ? ? ? ? ? ? ? ?]. constructor; cbn; auto. Qed.
+
+Lemma inf_index_static p q hf :
+  same_static p q -> inf_index_for_hf q hf = inf_index_for_hf p hf.
+Proof. intros S. unfold inf_index_for_hf. now rewrite (ss10 _ _ S), (ss11 _ _ S). Qed.
+
+Lemma inc_ptr p q :
+  same_static p q ->
+  p_curr_hf (inc_path q) = p_curr_hf q + 1 /\
+  p_curr_inf (inc_path q) = inf_index_for_hf p (p_curr_hf q + 1).
+Proof.
+  intros S. split; [reflexivity|]. cbn [inc_path with_meta p_curr_inf]. now apply inf_index_static.
+Qed.
+
+Lemma forward_shape p e out d :
+  process_scion macq c now ing p = Forward e out d -> out_shape p out.
+Proof.
+  intros H. apply process_forward_inv in H as (s & i & h & F & D).
+  destruct (ingress_static _ _ _ _ _ _ _ _ F) as (SS & Ehf & Eci & Ersv).
+  pose proof (ingress_infos _ _ _ _ _ _ _ _ F) as PI.
+  destruct D as [(_ & _ & -> & _) | (_ & _ & s' & G & _ & OUT)].
+  { constructor; auto. }
+  pose proof (xover_next _ _ _ _ _ _ _ _ _ F G) as XN.
+  destruct (eff_xover p) eqn:X.
+  - (* effective cross-over *)
+    destruct XN as (i' & h' & Ni & Nh & EP' & EH & EI & ECI & _).
+    assert (SS' : same_static p (s_p s')) by (rewrite EP'; now apply same_static_inc).
+    assert (PI' : pw (step_rel p) 0 (p_infos p) (p_infos (s_p s'))) by (rewrite EP'; exact PI).
+    destruct (inc_ptr p (s_p s) SS) as [A1 A2]. rewrite <- EP', Ehf in A1, A2.
+    destruct (scope_eqb _ _).
+    + destruct OUT as [-> _]. unfold forward_out.
+      destruct (i_consdir (s_inf s') && negb (s_peer s')).
+      * cbn [store_inf s_p].
+        set (q := with_infos (s_p s') _).
+        assert (SQ : same_static p q) by (apply same_static_infos, SS').
+        destruct (inc_ptr p q SQ) as [B1 B2]. change (p_curr_hf q) with (p_curr_hf (s_p s')) in B1, B2.
+        constructor.
+        -- now apply same_static_inc.
+        -- subst q. cbn [inc_path with_meta with_infos p_infos]. rewrite ECI.
+           eapply pw_setN; [exact PI' | exact Ni |].
+           right. split; [now apply ci1_changeable|]. exists h'. split; [now right|].
+           rewrite EI, EH. reflexivity.
+        -- right. rewrite B2, B1, A1. split; [right; lia | reflexivity].
+      * destruct (inc_ptr p (s_p s') SS') as [B1 B2].
+        constructor.
+        -- now apply same_static_inc.
+        -- exact PI'.
+        -- right. rewrite B2, B1, A1. split; [right; lia | reflexivity].
+    + subst out. constructor; auto. right. rewrite A2, A1. split; [now left | reflexivity].
+  - (* same segment (or peering hop) *)
+    destruct XN as (EP' & EH & EI).
+    destruct (scope_eqb _ _).
+    + destruct OUT as [-> _]. unfold forward_out.
+      destruct (i_consdir (s_inf s') && negb (s_peer s')) eqn:U.
+      * cbn [store_inf s_p]. rewrite EP'.
+        (* in construction direction nothing was folded in on ingress *)
+        assert (NF : folds ing p i = false).
+        { rewrite EI in U. apply andb_true_iff in U as [U _].
+          unfold folds. destruct (i_consdir i) eqn:CD; [reflexivity|].
+          unfold verif_info in U. rewrite CD in U.
+          destruct (negb false && _ && _) in U; cbn in U; rewrite ?CD in U; discriminate. }
+        pose proof (if_pkt _ _ _ _ _ _ _ _ F) as EP. rewrite NF in EP. rewrite EP.
+        set (q := with_infos p _).
+        assert (SQ : same_static p q) by (apply same_static_infos; constructor; auto).
+        destruct (inc_ptr p q SQ) as [B1 B2]. change (p_curr_hf q) with (p_curr_hf p) in B1, B2.
+        constructor.
+        -- now apply same_static_inc.
+        -- subst q. cbn [inc_path with_meta with_infos p_infos].
+           eapply pw_setN; [apply pw_refl, step_rel_refl | apply (if_inf _ _ _ _ _ _ _ _ F) |].
+           right. split; [apply ci_changeable|]. exists h. split; [left; apply (if_hop _ _ _ _ _ _ _ _ F)|].
+           rewrite EI, EH, verif_info_fold, NF. reflexivity.
+        -- right. rewrite B2, B1. split; [now left | reflexivity].
+      * rewrite EP'. destruct (inc_ptr p (s_p s) SS) as [B1 B2]. rewrite Ehf in B1, B2.
+        constructor.
+        -- now apply same_static_inc.
+        -- exact PI.
+        -- right. rewrite B2, B1. split; [now left | reflexivity].
+    + subst out. rewrite EP'. constructor; auto.
+Qed.
+
+End C07b.
+
+Lemma hop_eqb_refl h : hop_eqb h h = true.
+Proof.
+  unfold hop_eqb. rewrite !eqb_reflx, !N.eqb_refl.
+  assert (list_eqb N.eqb (h_mac h) (h_mac h) = true) as -> by now apply list_eqb_N.
+  reflexivity.
+Qed.
+
+Lemma hops_eqb_refl l : list_eqb hop_eqb l l = true.
+Proof. induction l; cbn; [reflexivity|]. now rewrite hop_eqb_refl. Qed.
+
+Lemma info_frame_refl b x : info_frame b x x = true.
+Proof. unfold info_frame. rewrite !eqb_reflx, !N.eqb_refl. now rewrite orb_true_r. Qed.
+
+Definition rsv0 (l : list info) : bool := forallb (fun i => i_rsv i =? 0) l.
+
+Lemma pw_infos_frame p : forall k l l',
+  pw (step_rel p) k l l' -> rsv0 l = true -> infos_frame (seg_changeable p) k l l' = true.
+Proof.
+  intros k l l' P. induction P as [|k x y l l' R P IH]; [reflexivity|].
+  cbn. intros Z. apply andb_true_iff in Z as [Z1 Z2]. rewrite (IH Z2), andb_true_r.
+  destruct R as [-> | (Ch & h & _ & ->)]; [apply info_frame_refl|].
+  unfold info_frame. cbn. rewrite Ch, !eqb_reflx, N.eqb_refl. apply N.eqb_eq in Z1.
+  rewrite Z1. reflexivity.
+Qed.
+
+Lemma pw_segids p : forall k l l', pw (step_rel p) k l l' -> segids_ok p l l' = true.
+Proof.
+  intros k l l' P. induction P as [|k x y l l' R P IH]; [reflexivity|].
+  cbn. rewrite IH, andb_true_r. unfold segid_step_ok.
+  destruct R as [-> | (_ & h & Hh & ->)]; [now rewrite N.eqb_refl|].
+  apply orb_true_iff. right. cbn [i_segid ser_info upd_segid].
+  apply existsb_exists. exists h. split; [|apply N.eqb_refl].
+  apply in_or_app. destruct Hh as [-> | ->]; [left | right]; now left.
+Qed.
+
+Lemma pw_infos_diff p : forall k l l',
+  pw (step_rel p) k l l' -> rsv0 l = true ->
+  forallb (fun o => memN o (allowed_offsets p)) (infos_diff p k l l') = true.
+Proof.
+  intros k l l' P. induction P as [|k x y l l' R P IH]; [reflexivity|].
+  cbn [infos_diff rsv0 forallb]. intros Z. apply andb_true_iff in Z as [Z1 Z2].
+  rewrite !forallb_app, (IH Z2), andb_true_r.
+  destruct R as [-> | (Ch & h & _ & ->)].
+  - now rewrite !N.eqb_refl.
+  - cbn [i_rsv ser_info]. apply N.eqb_eq in Z1. rewrite Z1. cbn [N.eqb forallb andb].
+    rewrite andb_true_r.
+    destruct (i_segid x =? _); [reflexivity|]. cbn [forallb]. rewrite andb_true_r.
+    unfold seg_changeable in Ch. unfold allowed_offsets, memN.
+    apply orb_true_iff in Ch as [Ch | Ch].
+    + apply N.eqb_eq in Ch. subst k. cbn [existsb app]. rewrite !N.eqb_refl.
+      now rewrite !orb_true_r.
+    + apply andb_true_iff in Ch as [X Ch]. apply N.eqb_eq in Ch. subst k. rewrite X.
+      cbn [existsb app]. rewrite !N.eqb_refl. now rewrite !orb_true_r.
+Qed.
+
+Section C07c.
+Variable mac : N -> N -> N -> N -> N -> list N.
+Notation macq := (total mac).
+Variable c : cfg.
+Variable now : N.
+Variable ing : ingress.
+
+Lemma rsv_clear_split p : rsv_clear p = true -> p_meta_rsv p = 0 /\ rsv0 (p_infos p) = true.
+Proof. unfold rsv_clear. intros H. apply andb_true_iff in H as [A B]. apply N.eqb_eq in A. auto. Qed.
+
+Lemma shape_frame p out : out_shape p out -> rsv_clear p = true -> frame_ok p out = true.
+Proof.
+  intros [S PI _] R. destruct (rsv_clear_split _ R) as [R1 R2].
+  unfold frame_ok.
+  assert (p_meta_rsv out = p_meta_rsv p) as -> by (destruct (ss14 _ _ S); congruence).
+  rewrite (ss1 _ _ S), (ss2 _ _ S), (ss3 _ _ S), (ss4 _ _ S), (ss5 _ _ S), (ss6 _ _ S),
+    (ss7 _ _ S), (ss8 _ _ S), (ss9 _ _ S), (ss10 _ _ S), (ss11 _ _ S), (ss12 _ _ S), (ss13 _ _ S).
+  rewrite !N.eqb_refl, hops_eqb_refl, (pw_infos_frame _ _ _ _ PI R2).
+  assert (forall l, list_eqb N.eqb l l = true) as L by (intros; now apply list_eqb_N).
+  rewrite !L. destruct (p_l4_port p); cbn; rewrite ?N.eqb_refl; reflexivity.
+Qed.
+
+Lemma shape_exact p out : out_shape p out -> exact_ok p out = true.
+Proof.
+  intros [_ PI PT]. unfold exact_ok. rewrite (pw_segids _ _ _ _ PI), andb_true_r.
+  destruct PT as [(A & B & _) | ([A | A] & B)].
+  - rewrite A, B, !N.eqb_refl. reflexivity.
+  - rewrite A in B. rewrite A, B, !N.eqb_refl. cbn. now rewrite orb_true_r.
+  - rewrite A in B. rewrite A, B, !N.eqb_refl. cbn. now rewrite !orb_true_r.
+Qed.
+
+Lemma shape_offsets p out :
+  out_shape p out -> rsv_clear p = true ->
+  forallb (fun o => memN o (allowed_offsets p)) (record_diff_offsets p out) = true.
+Proof.
+  intros [S PI PT] R. destruct (rsv_clear_split _ R) as [R1 R2]. unfold record_diff_offsets.
+  rewrite !forallb_app, (pw_infos_diff _ _ _ _ PI R2), andb_true_r.
+  assert (p_meta_rsv out = p_meta_rsv p) as -> by (destruct (ss14 _ _ S); congruence).
+  rewrite N.eqb_refl. cbn [forallb andb]. rewrite andb_true_r.
+  destruct (_ && _); [reflexivity|]. cbn [forallb]. rewrite andb_true_r.
+  unfold allowed_offsets, memN. cbn [app existsb]. now rewrite N.eqb_refl.
+Qed.
+
+Lemma c07_ok_model_except_known p len :
+  rsv_clear p = true ->
+  match process macq c now ing p with
+  | Forward e out d =>
+    c07_ok p (Forward e out d) (record_diff_offsets p out) len len = true
+  | r => c07_ok p r [] len len = true
+  end.
+Proof.
+  intros R. unfold process. destruct (process_scion macq c now ing p) eqn:E; try reflexivity.
+  pose proof (forward_shape _ _ _ _ _ _ _ _ E) as Sh. unfold c07_ok.
+  rewrite (shape_frame _ _ Sh R), (shape_exact _ _ Sh), N.eqb_refl, (shape_offsets _ _ Sh R).
+  reflexivity.
+Qed.
+
+End C07c.
+
+Lemma pw_nth (R : N -> info -> info -> Prop) : forall l l' k0 n x y,
+  pw R k0 l l' -> nth_error l n = Some x -> nth_error l' n = Some y -> R (k0 + N.of_nat n) x y.
+Proof.
+  induction l as [|a t IH]; intros l' k0 n x y P Hx Hy.
+  - destruct n; discriminate.
+  - inversion P as [|k a' b t' t'' Hab Pt]; subst. destruct n as [|n]; cbn in *.
+    + injection Hx as ->. injection Hy as ->. now rewrite N.add_0_r.
+    + replace (k0 + N.pos (Pos.of_succ_nat n)) with (k0 + 1 + N.of_nat n) by lia. eapply IH; eauto.
+Qed.
+
+Lemma pw_length (R : N -> info -> info -> Prop) : forall l l' k, pw R k l l' -> length l' = length l.
+Proof. induction l; intros l' k P; inversion P; subst; cbn; [reflexivity | f_equal; eauto]. Qed.
+
+Lemma shape_infos p out k x y :
+  out_shape p out -> nthN (p_infos p) k = Some x -> nthN (p_infos out) k = Some y ->
+  i_peer y = i_peer x /\ i_consdir y = i_consdir x /\ i_ts y = i_ts x /\
+  (seg_changeable p k = false -> y = x).
+Proof.
+  intros [_ PI _] Hx Hy. unfold nthN in *.
+  pose proof (pw_nth _ _ _ _ _ _ _ PI Hx Hy) as R. cbn in R. rewrite N2Nat.id in R.
+  destruct R as [-> | (Ch & h & _ & ->)]; [auto|].
+  cbn. repeat split; try reflexivity. congruence.
+Qed.
